@@ -1,5 +1,6 @@
 import A2Verif.Lemmas.SrvPoison
 import A2Verif.Lemmas.SrvSent
+import A2Verif.Lemmas.SrvAn
 /-!
 # C18 — Language servers report on the latest text under any schedule
 
@@ -311,5 +312,88 @@ example : (run (fun t => some t) init
     [.opn 1 1 5, .acquire 0, .die 0, .tick, .chg 1 2 6, .acquire 1, .tick, .request, .chg 1 3 7, .acquire 2, .tick, .tick]).map
       (fun s => (s.lock, s.published.length, s.queue.length, s.answered))
     = some (.poisoned, 0, 0, 1) := by decide
+
+/-! ## (v) the shared analyzer object: when is a published result a function of the text alone? -/
+
+/-- **What the equals-fresh-analysis oracle checks, stated.**  In the model with the analyzer object's
+state explicit (`stepS`: every shared job sees the state its predecessor on the mutex left behind), if
+`analyze` resets its state (`A.resets`) then under every history and schedule everything published is,
+in launch order, the analysis *by a new analyzer of that job's own text alone* (`A.alone`). -/
+theorem published_is_function_of_text_alone {A : Analyzer} (hreset : A.resets) {evs : List Event} {ss : SState}
+    (hr : runS A (sinit A) evs = some ss) :
+    ss.srv.published.Sublist (ss.srv.launched.filterMap (pubOf A.alone)) :=
+  published_in_launch_order A.alone (runS_refines hreset hr)
+
+/-- **C18 clause (ii) for the stateful model**: with a resetting analyzer, no thread death and every
+job finishing, after the queue has drained the last publication for each document carries the last
+version sent and equals the analysis of the last text alone by a new analyzer — whatever other
+documents and older versions went through the shared analyzer before, in whatever order. -/
+theorem stateful_last_publication_equals_fresh_analysis {A : Analyzer} (hreset : A.resets)
+    {evs : List Event} {ss : SState} (hr : runS A (sinit A) evs = some ss)
+    (hnd : ∀ e ∈ evs, notDie e) (hplain : ∀ e ∈ evs, plain e)
+    (hfair : ∀ id, id < ss.srv.nextId → Event.finish id ∈ evs) :
+    ∃ ss', runS A (sinit A) (evs ++ List.replicate ss.srv.queue.length .tick) = some ss' ∧ ss'.srv.queue = [] ∧
+      ∀ u d r, lastSent evs u = some d → A.alone d.text = some r →
+        ∃ id, lastPub ss'.srv.published u = some { id := id, uri := u, ver := d.ver, diags := r } := by
+  have hr0 : run A.alone init evs = some ss.srv := runS_refines hreset hr
+  obtain ⟨s', h1, h2, h3⟩ := last_publication_is_last_sent A.alone hr0 hnd hplain hfair
+  -- the ticks are enabled in the stateful model too and lead to the same server state
+  have hticks : ∀ (n : Nat) (x : SState) (s2 : State), run A.alone x.srv (List.replicate n .tick) = some s2 →
+      ∃ x', runS A x (List.replicate n .tick) = some x' ∧ x'.srv = s2 := by
+    intro n
+    induction n with
+    | zero => intro x s2 h; simp only [List.replicate_zero, run, Option.some.injEq] at h; exact ⟨x, rfl, h⟩
+    | succ n ih =>
+      intro x s2 h
+      simp only [List.replicate_succ, run] at h
+      cases hs : step A.alone x.srv .tick with
+      | none => simp [hs] at h
+      | some s1 =>
+        simp only [hs] at h
+        have hS : stepS A x .tick = some { srv := s1, shared := x.shared } := by
+          simp only [stepS, viewOf_eq_alone hreset, hs, Option.map_some]
+        obtain ⟨x', hx1, hx2⟩ := ih { srv := s1, shared := x.shared } s2 h
+        exact ⟨x', by simp only [List.replicate_succ, runS, hS]; exact hx1, hx2⟩
+  have happ : ∀ (a b : List Event) (x : SState), runS A x (a ++ b) = (runS A x a).bind (fun y => runS A y b) := by
+    intro a
+    induction a with
+    | nil => intro b x; simp [runS]
+    | cons e a ih =>
+      intro b x
+      simp only [List.cons_append, runS]
+      cases stepS A x e with
+      | none => simp
+      | some y => simp [ih]
+  rw [run_append, hr0] at h1
+  obtain ⟨x', hx1, hx2⟩ := hticks _ ss s' h1
+  refine ⟨x', ?_, by rw [hx2]; exact h2, ?_⟩
+  · rw [happ, hr]; exact hx1
+  · rw [hx2]; exact h3
+
+/-- non-vacuity: an analyzer whose successor state is the last text it saw but whose result ignores the
+state (it "resets") — two documents, analyses out of launch order -/
+example :
+    let A : Analyzer := { fresh := 0, run := fun _ t => (some (t + 1), t) }
+    A.resets ∧
+    (runS A (sinit A) [.opn 7 1 100, .opn 8 1 200, .acquire 1, .finish 1, .acquire 0, .finish 0, .tick, .tick]).map
+      (fun ss => (ss.shared, ss.srv.published.map (fun p => (p.uri, p.diags)))) = some (100, [(7, 101), (8, 201)]) := by
+  refine ⟨fun _ _ => rfl, by decide⟩
+
+/-- **The hypothesis is necessary** (this is the shape of a collision table that is not cleared between
+analyses): an analyzer whose result depends on what the previous analysis left behind publishes, for
+the final text `6`, something different from the analysis of `6` alone — and what it publishes depends
+on the schedule. -/
+example :
+    let A : Analyzer := { fresh := 0, run := fun a t => (some (t + 1000 * a), t) }
+    ¬ A.resets ∧
+    A.alone 6 = some 6 ∧
+    (runS A (sinit A) [.opn 7 1 5, .chg 7 2 6, .acquire 0, .finish 0, .acquire 1, .finish 1, .tick, .tick]).map
+      (fun ss => (lastPub ss.srv.published 7).map (·.diags)) = some (some 5006) ∧
+    (runS A (sinit A) [.opn 7 1 5, .chg 7 2 6, .acquire 1, .finish 1, .acquire 0, .finish 0, .tick, .tick]).map
+      (fun ss => (lastPub ss.srv.published 7).map (·.diags)) = some (some 6) := by
+  refine ⟨?_, by decide, by decide, by decide⟩
+  intro h
+  have := h 1 0
+  simp at this
 
 end A2Verif.C18
